@@ -5,8 +5,8 @@ import props, build
 
 TEXT = {
     "C01": "full proof of the tiling statement on the model for every input (C01_tiling: ordered, disjoint root ranges inside the input, gaps and rest blank, Source = range with NUL replaced, StartLine by line endings, lengths) and for the streaming entry point (parseStream_eq_small); the memory clauses (aliasing, buffer untouched) are observed on the implementation by the oracle; tie: root-block headers through both entry points",
-    "C02": "partial proof: block spans valid, nested, ordered for every input (parseFull_block_spans); inline spans valid, nested, ordered for every leaf meeting the executable entry conditions (parseInlines_spans, rewrite_roots_inline_spans), which the run evaluates on the implementation's pre-inline trees; that the block layer always meets them, and character boundaries, decided by span-structure correspondence (model vs Parse) plus the span oracle",
-    "C03": "partial proof: at the block layer no textual byte is lost or duplicated, for every input (no_duplication, no_loss); after the inline pass no byte is covered twice (C03_no_dup_partial, under the executable entry condition evaluated on the implementation's trees); coverage through the inline parser decided by leaf-span correspondence plus the coverage oracle",
+    "C02": "proof on the model for every input of the span structure at both levels: block spans valid, nested, ordered (parseFull_block_spans); inline spans valid, nested, ordered for every input and matcher (parseBlocks_inline_spans); not proved: the character-boundary clause (decided by correspondence, the span oracle and the formal statement evaluated on the implementation's trees)",
+    "C03": "full proof on the model: C03_full = Props.C03_statement (for every input no byte is covered by two leaves and every textual byte by exactly one), composed from the block-layer accounting, the coverage theorem of the inline parser and the entry invariants of the block layer; tie: leaf-span correspondence plus the coverage oracle and the formal statement evaluated on the implementation's trees",
     "C04": "full proof on the model that the whole parse is total for every input: the block layer reaches no panic site and exhausts no fuel (parseBlocks_total), the inline parser exhausts none of its fuels (parseFull_fuel_adequate, parseFull_total); Walk and readline terminate with stated fuel, renderer/formatter models are total; the implementation is run under recover + watchdog in all 30 configurations on hostile inputs; tie: model/implementation correspondence",
     "C05": "full proof on the model of the node grammar for every input: block level (parseFull_gramBlocks), inline level incl. no link in a link and title-follows-destination (ComposeGram.parseFull_gramI), canContain closure, entry kinds, reference closure, item-number range; accessor agreement decided by kind/accessor correspondence through both entry points plus the grammar oracle",
     "C06": "partial proof: whole-pipeline statement proved on four slices for inputs of any length (escaped text, verbatim fenced code, emphasis nests = the spec's delimiter procedure, a shortcut reference against one definition); for general documents: denotation oracle on serialised abstract documents (lib/docgen.py) plus model/implementation HTML correspondence",
@@ -16,7 +16,7 @@ TEXT = {
     "C10": "full proof on the model: Walk with the renderer's callbacks writes exactly the structural reading renderB of the tree, for every block and configuration (C10_appendBlock, walk_is_spec); tie: the structural renderer run on the implementation's own tree dump reproduces the implementation's bytes in all 30 configurations; determinism / tree untouched / joining observed on the implementation",
     "C11": "proof that the openers_bottom search bounds never change the result of process-emphasis (abstract lists of any length, and on the transcription of processEmphasis); full statement proved end to end on a vertical slice (C11_slice: lines of any length over letters, spaces, '*', '_' and a few ASCII punctuation bytes parse to exactly the forest the spec's delimiter-run procedure denotes); flanking flags and tokenisation tied by exhaustive correspondence up to a length bound; oracle = independent transcription of the spec procedure without the bound",
     "C12": "partial proof: closure clause for every input and matcher (C12_closure), Extract = first-wins fold in source order; label normalisation tied through the generated case-folding table and judged against an independent normaliser on generated label pairs",
-    "C13": "proof on the model for every input: every block node (NUL included, BlockShapesAll), every inline node of paragraphs and headings (ComposeShapes) and every verbatim entry has a valid span and the shape of its construct (C13Full.C13_partial); exempted and left to correspondence + oracle + the formal statement evaluated on the implementation's trees: the info string of a fence and the label/destination/title entries of a definition (C13_of_exempt reduces the full statement to them); tie: (kind, span) correspondence plus the shape oracle",
+    "C13": "full proof on the model: C13_full = Props.C13_statement (for every input every block and inline node has a valid span and the shape of its construct); tie: (kind, span) correspondence plus the shape oracle and the formal statement evaluated on the implementation's trees",
     "C14": "partial proof: padding clause on the concrete machine for every input (parseBlocks_blank_prefix); CR clause at the block layer for every input (parseBlocks_cr); recognizers insensitive to the line-ending style; final-newline and CRLF clauses: exact tree relations refuted unrestricted (one is finding D24), proved only bounded-exhaustively (thorough tier); decided by correspondence on the variants plus the oracle",
     "C15": "full proof on the model: every recognizer equals (or is sound and complete for) its declarative definition on every line, classifiers over all 256 bytes, e-mail grammar, URI alphabet / well-formed escapes / idempotence; classifier bodies and constants are regenerated from /repo's source on every run (TieClassify.v, TieBlocks.v, TieRender.v); recognizers tied by exhaustive correspondence through the verif hook",
     "C16": "partial proof: the re-parse property proved end to end on a slice (any number of one-line text paragraphs: SliceReparse.C16_reparse_paras); for general documents: re-parse oracle on the implementation (every root block re-parsed, also under one-byte reads, and compared node by node) plus model/implementation tree correspondence",
